@@ -194,6 +194,15 @@ def gen_case(rng):
             return ("proj", "xs", ("call", f, [("cur",)])), d
         return ("call", f, [A0]), d
     if f == "to_number":
+        if rng.random() < 0.5:
+            # composed numeric spellings and their near-misses: sign x integer part x fraction x exponent x padding
+            body = (rng.choice(["", "", "-", "-", "+", "--", "+-"]) + rng.choice(["0", "7", "12", "007", "", "9007199254740993", "1"])
+                    + rng.choice(["", "", ".", ".5", ".50", ".0"]) + rng.choice(["", "", "e2", "E-2", "e", "e+", "e+03", "E308", "e400"]))
+            body = rng.choice(["", "", " ", "\t", "\n", "\r", "\x0c", "\u00a0"]) + body + rng.choice(["", "", " ", "\n", "\x0b", ","])
+            if rng.random() < 0.1:
+                body = rng.choice(["Infinity", "-Infinity", "NaN", "inf", "1_0", "٣", "１", "0x1", "1,5", "0b1", "+", "-", ".", "e1"])
+            d["a0"] = ("s", body)
+            return ("call", f, [A0]), d
         d["a0"] = rng.choice([rn(rng), ("s", rng.choice(["1", "-1", "1.5", "-0", "0", "1e2", "1E+2", " 7 ", "007", "0x1", "", "true", "null",
                                                        "[1]", "\"1\"", "12345678901234567890", "-9223372036854775808", "1.", ".5", "1e", "3.25e-2"])),
                               any_val(rng)])
@@ -203,7 +212,7 @@ def gen_case(rng):
 
 def run(ctx):
     rng = ctx.rng
-    n = 5000 if ctx.tier == "quick" else 150000
+    n = 5000 if ctx.tier == "quick" else 750000
     trees = []
     for l in S.load_corpus("C02"):
         e, d = l.split("\t", 1)
